@@ -308,8 +308,8 @@ func runC03(c *Ctx) {
 		for _, b := range fn.Blocks {
 			for _, ins := range b.Instrs {
 				ph, ok := ins.(*ssa.Phi)
-				if !ok || ph.Comment != "nextIndex" {
-					continue
+				if !ok {
+					continue // any variable initialised from exactly the two branch counters is "the next index" (role, not name)
 				}
 				var fs []string
 				for _, e := range ph.Edges {
@@ -325,7 +325,7 @@ func runC03(c *Ctx) {
 		}
 		// captured variable form: the initial values are stored into an alloc (external first, overwritten when internal)
 		{
-			var fs []string
+			byAlloc := map[*ssa.Alloc][]string{}
 			for _, b := range fn.Blocks {
 				for _, ins := range b.Instrs {
 					st, ok := ins.(*ssa.Store)
@@ -333,25 +333,27 @@ func runC03(c *Ctx) {
 						continue
 					}
 					al, ok := st.Addr.(*ssa.Alloc)
-					if !ok || al.Comment != "nextIndex" {
+					if !ok {
 						continue
 					}
 					if _, f, _, okf := fieldOf(st.Val); okf {
-						fs = append(fs, f)
+						byAlloc[al] = append(byAlloc[al], f)
 						// the internal value must be stored under the `internal` flag
 					}
 					if ph, ok := st.Val.(*ssa.Phi); ok {
 						for _, e := range ph.Edges {
 							if _, f, _, okf := fieldOf(e); okf {
-								fs = append(fs, f)
+								byAlloc[al] = append(byAlloc[al], f)
 							}
 						}
 					}
 				}
 			}
-			sort.Strings(fs)
-			if strings.Join(fs, ",") == "nextExternalIndex,nextInternalIndex" {
-				okStart = true
+			for _, fs := range byAlloc {
+				sort.Strings(fs)
+				if strings.Join(fs, ",") == "nextExternalIndex,nextInternalIndex" {
+					okStart = true
+				}
 			}
 		}
 		c.Check("C03-R4", "starts-from-branch-next-index:"+fnn, fn.Pos(), okStart, fnn+" does not start from the account's next external/internal index selected by the branch")
